@@ -233,9 +233,12 @@ def _gen_history(rng, space, nd, torus, bounds, cap, nops, maxagents=9):
                     ops.append(["nbr_radius", a, _radius(rng, bounds, torus, pts, placed[a])])
                 elif k < 0.93 and n >= 2:
                     ops.append(["nbr_near", rng.choice(list(placed)), rng.choice([1, n - 1, n - 1, rng.randint(1, n - 1)])])
-                elif n >= 2:
+                elif k < 0.965 and n >= 2:
                     a, b = rng.sample(list(placed), 2)
                     ops.append(["pair", a, b])
+                elif n:
+                    sub = [rng.choice(list(placed)) for _ in range(rng.randint(1, min(4, n + 1)))]
+                    ops.append([rng.choice(["dists_of", "diffs_of"]), q, sub])
                 else:
                     ops.append(["radius", q, _radius(rng, bounds, torus, pts, q)])
     return ops[:nops]
@@ -551,7 +554,8 @@ def _site(kind):
             "dist": "get_distance", "heading": "get_heading", "add": "add", "set": "position",
             "dists": "calculate_distances", "radius": "get_agents_in_radius", "knear": "get_k_nearest_agents",
             "diffs": "calculate_difference_vector", "nbr_radius": "get_neighbors_in_radius",
-            "nbr_near": "get_nearest_neighbors", "pair": "calculate_distances"}.get(kind, kind)
+            "nbr_near": "get_nearest_neighbors", "pair": "calculate_distances",
+            "dists_of": "calculate_distances", "diffs_of": "calculate_difference_vector"}.get(kind, kind)
 
 
 def _run_exp(case):
@@ -788,6 +792,35 @@ def _run_exp(case):
                     elif d1 != _dist2(torus, bounds, shadow[a], shadow[b]) or bad or len(d_ab) != 1:
                         fails.add("C10/exp/calculate_distances/wrong-distance", i, f"distance between agents {a} at x16 {shadow[a]} and {b} at x16 {shadow[b]} reported squared x256 {d1}, is {_dist2(torus, bounds, shadow[a], shadow[b])}")
                 obs.append([d1, d2_, SEP] + view(i))
+            elif kind in ("dists_of", "diffs_of"):
+                _, q, sub = op
+                if len(q) != nd or any(a not in live for a in sub):
+                    obs.append([-2])
+                    ops_for_model.append(mop)
+                    continue
+                bad = []
+                objs = [live[a] for a in sub]
+                res = []
+                if kind == "dists_of":
+                    dists, agents = space.calculate_distances(_to_py(q, "a"), agents=objs)
+                    labels = [o._label for o in agents]
+                    d2 = [_sc2(d, bad) for d in dists]
+                    if not state["dead"]:
+                        want = [_dist2(torus, bounds, shadow[a], q) for a in sub]
+                        if labels != sub or d2 != want or bad:
+                            fails.add("C10/exp/calculate_distances/agents-subset-wrong", i, f"calculate_distances(x16 {q}, agents={sub}) returned agents {labels} with squared distances x256 {d2}; their positions x16 {[shadow[a] for a in sub]} give {want}")
+                    for a, d in zip(labels, d2):
+                        res += [a, d]
+                else:
+                    delta = space.calculate_difference_vector(_to_py(q, "a"), agents=objs)
+                    if len(delta) != len(sub) and not state["dead"]:
+                        fails.add("C10/exp/calculate_difference_vector/misaligned", i, f"{len(delta)} rows for {len(sub)} agents")
+                    for a, row in zip(sub, delta):
+                        v = [_sc(x, bad) for x in row]
+                        res += [a] + v
+                        if not state["dead"] and (sum(x * x for x in v) != _dist2(torus, bounds, shadow[a], q) or bad):
+                            fails.add("C10/exp/calculate_difference_vector/length", i, f"difference vector from x16 {q} to agent {a} at x16 {shadow[a]} (agents= form) is x16 {v}: squared length {sum(x * x for x in v)}, squared distance {_dist2(torus, bounds, shadow[a], q)}")
+                obs.append(res + [SEP] + view(i))
             else:
                 raise ValueError(kind)
             ops_for_model.append(mop)
@@ -869,6 +902,10 @@ def coq_case(case):
             ops.append(f"ENearestNbrs {L.z(op[1])} {int(op[2])}%nat {L.zlist(out)}")
         elif k == "pair":
             ops.append(f"EPair {L.z(op[1])} {L.z(op[2])}")
+        elif k == "dists_of":
+            ops.append(f"EDistancesOf {_pt(op[1])} {L.zlist(op[2])}")
+        elif k == "diffs_of":
+            ops.append(f"EDiffsOf {_pt(op[1])} {L.zlist(op[2])}")
         else:
             raise ValueError(k)
     cfg = f"{{| ec_bounds := {_bs(case['bounds'])}; ec_torus := {L.b(case['torus'])}; ec_cap := {int(case['cap'])}%nat |}}"
@@ -882,7 +919,8 @@ def op_kinds(case):
 def nontrivial(case):
     obs = case.get("_obs", [])
     done = [o for o in obs if o and o[0] != -2]
-    queries = {"nbrs", "radius", "knear", "dists", "diffs", "nbr_radius", "nbr_near", "dist", "heading", "pair"}
+    queries = {"nbrs", "radius", "knear", "dists", "diffs", "nbr_radius", "nbr_near", "dist", "heading", "pair",
+               "dists_of", "diffs_of"}
     hit = any(op[0] in queries and o and o[0] not in (-1, -2, SEP) and len(o) > 3
               for op, o in zip(case["ops"], obs))
     return len(done) >= 3 and hit
